@@ -89,14 +89,18 @@ def _view(w: Any) -> Tuple:
     return (sorted(w.keypairs.items()), list(w.unused_public_keys), sorted(w.public_key_annotations.items()))
 
 
-def handouts(exclude_known: bool = True, only_known: bool = False, twin: bool = False, real: bool = False):
+def handouts(exclude_known: bool = True, only_known: bool = False, note_fixed: int = -1, twin: bool = False, real: bool = False):
     wl = _wl()
 
-    def check_handouts(m0: int, m1: int, m2: int, m3: int, swap: bool, pick: int, op: int) -> bool:
+    def check_handouts(m0: int, m1: int, m2: int, m3: int, swap: bool, pick: int, op: int, note: int = 0) -> bool:
         """
         post: _
         """
         members = [m0, m1, m2, m3]
+        if not (0 <= note <= 2) or (note_fixed >= 0 and note != note_fixed):
+            return True
+        # the text of the second request: a new one, the same as the first request's, or one an older key already carries
+        second_note = ["receive", "reserved", "note 2"][note]
         for m in members:
             if not (0 <= m <= 2):
                 return True
@@ -164,7 +168,7 @@ def handouts(exclude_known: bool = True, only_known: bool = False, twin: bool = 
                 return False
             # the next hand-out
             had_unused = len(w.unused_public_keys) > 0
-            k2 = w.get_annotated_public_key("receive")
+            k2 = w.get_annotated_public_key(second_note)
             if had_unused and k2 in H:
                 return False
             return _inv(w)
@@ -175,7 +179,7 @@ def handouts(exclude_known: bool = True, only_known: bool = False, twin: bool = 
             else:
                 wl.print = saved_print
 
-    return check_handouts, {"m0": 1, "m1": 1, "m2": 2, "m3": 0, "swap": False, "pick": 0, "op": 1}
+    return check_handouts, {"m0": 1, "m1": 1, "m2": 2, "m3": 0, "swap": False, "pick": 0, "op": 1, "note": max(note_fixed, 0)}
 
 
 def generate(twin: bool = False, real: bool = False):
@@ -455,7 +459,9 @@ def obligations(tier: str, known: List[str]) -> List[Ob]:
     excl = KEY_F7 in known
     obs: List[Ob] = []
     obs.append(Ob("a.fidelity[dump-load]", C_FID, "fidelity", {}, timeout=T))
-    obs.append(Ob("b.handouts[get/restore/save-load/get]", C_ONCE, "handouts", {"exclude_known": excl}, timeout=T))
+    for nf, nm in enumerate(("new text", "same text as the first request", "text an older key carries")):
+        obs.append(Ob("b.handouts[get/restore/save-load/get,second request: %s]" % nm, C_ONCE, "handouts",
+                      {"exclude_known": excl, "note_fixed": nf}, timeout=T))
     obs.append(twin_of(obs[-1], timeout=300))
     obs.append(Ob("b.generate-keys", C_ONCE, "generate", {}, timeout=T))
     obs.append(Ob("c.balance", C_BAL, "balance", {}, timeout=T))
